@@ -141,5 +141,18 @@ def massTet (lump : Bool) (vtx : Nat → V3 K) (ts : List Tet) : Coo K :=
       let bii := vol / ((60 : Nat) : K); let bij := vol / ((120 : Nat) : K)
       tetBlock τ bij bij bij bij bij bij bii bii bii bii
 
+/-! ### `Solver.__init__`, anisotropic branch -/
+
+/-- `aniso_mat[:, 0] = exp(-aniso0 * |c2|)`, `aniso_mat[:, 1] = exp(-aniso1 * |c1|)` -/
+def anisoWeights [HasExp K] (a0 a1 c1 c2 : K) : K × K :=
+  (HasExp.exp (-a0 * HasAbs.abs c2), HasExp.exp (-a1 * HasAbs.abs c1))
+
+/-- `Solver(tria, lump, aniso=(a0, a1))` given the per-triangle output `(u1, u2, c1, c2)` of `curvature_tria`:
+    the anisotropic stiffness with the weights above and the (lumped or full) mass matrix — `lump` is passed on. -/
+def solverAniso [HasExp K] (lump : Bool) (vtx : Nat → V3 K) (ts : List Tri) (a0 a1 : K) (cur : List (V3 K × V3 K × K × K)) :
+    Coo K × Coo K :=
+  (stiffTriaAniso vtx ts (cur.map fun (u1, u2, c1, c2) => let w := anisoWeights a0 a1 c1 c2; (u1, u2, w.1, w.2)),
+   massTria lump vtx ts)
+
 end Fem
 end LapyVerif
